@@ -510,7 +510,12 @@ pub fn run_tower(prop: Prop, h: &History, st: &mut Stats) -> Outcome {
                     let cv = clip_view(&clips, None, w, hh);
                     let empty = !cv.inside.iter().any(|b| *b);
                     let in_layer = brackets.iter().any(|b| matches!(b, Br::Layer)) || matches!($step.op, Op::PushLayer { .. });
-                    if empty && in_layer && pi.budget_site.is_none() {
+                    // ... unless the call panics all by itself (geometry beyond the working range
+                    // overflows the rasteriser's fixed point in any state: C07's domain, not this
+                    // clause; a false alarm under VERIF_SEED=67, DESIGN 10.2 item 10)
+                    let self_inflicted = matches!($step.op, Op::Fill { .. } | Op::FillRect { .. } | Op::Stroke { .. } | Op::Clear { .. } | Op::Mask { .. } | Op::DrawImageAt { .. } | Op::DrawImageSized { .. } | Op::PushClip(_))
+                        && mk::panics_on_plain_target(w, hh, &levels[0].world.shadows[0].ctm, &$step.op, budget);
+                    if empty && in_layer && pi.budget_site.is_none() && !self_inflicted {
                         return Outcome::Violation(Violation {
                             oracle: "c06.layer-under-empty-clip-panicked",
                             step: $i,
